@@ -37,9 +37,8 @@ func runC12(c *Ctx, r *Report, tier string) {
 	wo := c.mustFn(r, "writeOption")
 	wg := c.mustFn(r, "writeGroupIni")
 	ip := c.mustFn(r, "isPrint")
-	oin := c.mustFn(r, "optionIniName")
 	rfl := c.mustFn(r, "readFullLine")
-	if cts == nil || cv == nil || wo == nil || wg == nil || ip == nil || oin == nil || rfl == nil {
+	if cts == nil || cv == nil || wo == nil || wg == nil || ip == nil || rfl == nil {
 		return
 	}
 
@@ -369,22 +368,33 @@ func runC12(c *Ctx, r *Report, tier string) {
 	if obn := c.mustFn(r, "(*Group).optionByName"); obn != nil {
 		c.priorityRules(r, "RESOLVE", obn)
 	}
-	var rets []string
-	for _, ret := range returnsOf(oin) {
-		// a loop over a constant key table {"_read-ini-name", "ini-name"} is the same cascade
-		if call, ok := c.resolve(ret.Results[0]).(*ssa.Call); ok && c.calleeName(call.Common()) == "(*multiTag).Get" && c.term(call.Call.Args[0]) == "&Option.tag(P0)" {
-			if elems, ok := constArrayElems(c, call.Call.Args[1]); ok && len(elems) == 2 && elems[0] == `"_read-ini-name"` && elems[1] == `"ini-name"` {
-				for _, e := range elems {
-					rets = append(rets, "call:(*multiTag).Get(&Option.tag(P0), "+e+")")
+	// the name written in front of every value: looked at where it is handed to writeOption (optionIniName is
+	// looked through, so it does not matter whether the cascade lives in that helper or in writeGroupIni)
+	optT := "idx(Group.options(P1), phi{(phi↺ + 1) | 0})"
+	nameSet := map[string]bool{}
+	nW := 0
+	for _, in := range c.instrs(wg, c.isCallTo("writeOption")) {
+		call := in.(*ssa.Call)
+		nW++
+		for _, o := range c.originsOf(call.Call.Args[1], in) {
+			t := strings.ReplaceAll(o.Term, optT, "OPT")
+			t = strings.ReplaceAll(t, "&Option.tag(P0)", "&Option.tag(OPT)")
+			t = strings.ReplaceAll(t, "&Option.field(P0)", "&Option.field(OPT)")
+			// a loop over a constant key table {"_read-ini-name", "ini-name"} is the same cascade
+			if gc, ok := c.resolve(o.Val).(*ssa.Call); ok && c.calleeName(gc.Common()) == "(*multiTag).Get" {
+				if elems, ok := constArrayElems(c, gc.Call.Args[1]); ok && len(elems) == 2 && elems[0] == `"_read-ini-name"` && elems[1] == `"ini-name"` {
+					for _, e := range elems {
+						nameSet["call:(*multiTag).Get(&Option.tag(OPT), "+e+")"] = true
+					}
+					continue
 				}
-				continue
 			}
+			nameSet[t] = true
 		}
-		rets = append(rets, c.term(ret.Results[0]))
 	}
-	sort.Strings(rets)
-	wantN := []string{`StructField.Name(&Option.field(P0))`, `call:(*multiTag).Get(&Option.tag(P0), "_read-ini-name")`, `call:(*multiTag).Get(&Option.tag(P0), "ini-name")`}
-	r.Check(strings.Join(rets, " | ") == strings.Join(wantN, " | "), "NAMES", c.fname(oin), "written option name", c.pos(oin.Pos()), "∈ {name read, ini-name tag, field name}: each resolvable by optionByName (C13 PRIORITY)", "optionIniName returns {"+strings.Join(rets, " | ")+"}")
+	rets := sortedKeys(nameSet)
+	wantN := []string{`StructField.Name(&Option.field(OPT))`, `call:(*multiTag).Get(&Option.tag(OPT), "_read-ini-name")`, `call:(*multiTag).Get(&Option.tag(OPT), "ini-name")`}
+	r.Check(nW >= 1 && strings.Join(rets, " | ") == strings.Join(wantN, " | "), "NAMES", c.fname(wg), "written option name", c.pos(wg.Pos()), "∈ {name read, ini-name tag, field name}: each resolvable by optionByName (C13 PRIORITY)", "the name written is one of {"+strings.Join(rets, " | ")+"}")
 
 	// ---- MAPKEYS
 	okS := false
